@@ -661,22 +661,30 @@ static uint32_t CodeHolder_hash_name_and_get_size(const char* name, size_t& name
 }
 
 Fixup* CodeHolder::new_fixup(LabelEntry& le, uint32_t section_id, size_t offset, intptr_t rel, const OffsetFormat& format) noexcept {
-  // Cannot be bound if we are creating a link.
-  ASMJIT_ASSERT(!le.is_bound());
-
   Fixup* link = _fixup_data_pool.alloc(_arena);
   if (ASMJIT_UNLIKELY(!link)) {
     return nullptr;
   }
 
-  link->next = le._get_fixups();
   link->section_id = section_id;
-  link->label_or_reloc_id = Globals::kInvalidId;
   link->offset = offset;
   link->rel = rel;
   link->format = format;
 
-  le._set_fixups(link);
+  if (le.is_bound()) {
+    // The label is already bound (to a different section than the one that references it). The fixup cannot be
+    // chained to the label as `_offset_or_fixups` holds the label offset - queue it as an unresolved cross-section
+    // fixup (tagged with the label id), which is what `bind_label()` does with fixups from other sections.
+    link->next = _fixups;
+    link->label_or_reloc_id = uint32_t(size_t(&le - _label_entries.data()));
+    _fixups = link;
+  }
+  else {
+    link->next = le._get_fixups();
+    link->label_or_reloc_id = Globals::kInvalidId;
+    le._set_fixups(link);
+  }
+
   _unresolved_fixup_count++;
 
   return link;
